@@ -24,7 +24,7 @@ TEMP_TICK = 10**6      # temperatures of the model are millionths of a degree
 
 ALL_UNITS = {"one", "percent", "rad", "aq", "m", "km", "cm", "mm", "kilo_m", "milli_m", "inch", "s", "minute", "hour", "ms",
              "kg", "gram", "tonne", "newton", "kN", "joule", "Nm", "Wh", "watt", "pascal", "kPa", "hertz", "rad_s",
-             "aq_s", "liter", "m3", "mps", "kmh", "kelvin", "mK", "thousand", "hundredth", "half"}
+             "aq_s", "liter", "m3", "mps", "kmh", "kelvin", "mK", "thousand", "hundredth", "half", "bit", "byte", "bit_s"}
 INEXACT = {"milli_m", "half"}       # prefixes.milli is the float 10**-3; "half" is the plain float 0.5
 
 CFG = {
@@ -45,10 +45,10 @@ CFG = {
                                                     -268927899, 1234567, 77355001, 1357246801)}),
 }
 INVARIANTS = ["TypeOK", "ValuePreserved", "Composition", "Inverse", "OwnSIUnit", "RefusalExact", "Linear",
-              "EvaluationPreservesValue", "Homogeneous", "CelsiusHelper", "TempInverse"]
+              "ForeignBaseCounts", "EvaluationPreservesValue", "Homogeneous", "CelsiusHelper", "TempInverse"]
 # units that are plain SymPy expressions (no wrapped symplyphysics Quantity inside): an expression may mix them
 # with wrapped quantities
-PLAIN_UNITS = ALL_UNITS - {"one", "aq", "aq_s", "mK", "kilo_m", "milli_m", "kN", "thousand", "hundredth", "half"}
+PLAIN_UNITS = ALL_UNITS - {"bit", "byte", "bit_s", "one", "aq", "aq_s", "mK", "kilo_m", "milli_m", "kN", "thousand", "hundredth", "half", "bit", "byte", "bit_s"}
 VALS = {"v1": Fraction(1), "v2": Fraction(2), "vm3": Fraction(-3), "vh": Fraction(1, 2), "v75": Fraction(7, 5),
         "v1000": Fraction(1000), "vmil": Fraction(1, 1000), "v0": Fraction(0)}
 
@@ -82,6 +82,7 @@ def _real():
                 "liter": u.liter, "m3": u.meter**3, "mps": u.meter / u.second, "kmh": u.kilometer / u.hour,
                 # plain numbers as conversion targets / as the unit a dimensionless quantity is counted in
                 "thousand": sp.Integer(1000), "hundredth": sp.Rational(1, 100), "half": 0.5,
+                "bit": u.bit, "byte": u.byte, "bit_s": u.bit / u.second,        # information has no SI unit
                 "kelvin": u.kelvin, "mK": Quantity(sp.Rational(1, 1000) * u.kelvin),
             })
     return _R
@@ -158,7 +159,8 @@ def replay_chain(case, as_float):
                 out.append(f"model converts, code refused step {refused[0]} with {refused[1]}")
             elif not same_complex(n, want, k, exact):
                 out.append(f"convert_to gives {n}, model {want}" + (f" * (1 + {k}i)" if k else ""))
-        if len(chain) == 2:          # once per start quantity and first target: the SI value
+        if len(chain) == 2 and not case.get("x"):   # once per start quantity and first target: the SI value
+            # (a quantity carrying information has no SI unit: nothing is claimed about its SI value)
             q0 = quantity(val, chain[0], as_float, k)
             si = Fraction(case["si"][0], case["si"][1])
             got = r["convert_to_si"](q0)
